@@ -102,4 +102,70 @@ example : SplitL 2 [PTree.leaf (matMul 2 exP exP) (0 : Nat), .leaf exP 1]
     [.node exP [.leaf exP 0], .leaf exP 1] :=
   .head _ _ _ (.here (.leaf (matMul 2 exP exP) 0) exP exP rfl)
 
+/-! ## Added by the audit: missing non-vacuity examples and two composite root placements -/
+
+example : lnLCompressed (fun k : Nat => 10 * k) (List.replicate 3 [3, 1, 3]).flatten = 3 • lnLCompressed (fun k : Nat => 10 * k) [3, 1, 3] := by
+  decide
+
+/-- `lh_leaf_relabel` on a non-trivial tree: tips renamed `a ↦ a + 10`, rows looked up under the new names -/
+example : lh 2 (fun s => s + 1) (fun b s => if (b + s) % 2 = 0 then (1 : Nat) else 0) (exA.mapLeaves (· + 10))
+    = lh 2 (fun s => s + 1) (fun a s => if (a + 10 + s) % 2 = 0 then (1 : Nat) else 0) exA := by decide
+
+/-- the hypotheses of `lh_reroot_reversible` are jointly satisfiable on a non-trivial tree: the root of `exA`
+moves across the edge above its internal child (`perm` then `move`), every edge matrix is `exP`, which is in
+detailed balance with the uniform weights -/
+def exC : PTree Nat Nat := .node exP [.node exP [.leaf exP 0, .leaf exP 3], .leaf exP 1, .leaf exP 2]
+example : Reroot exA exC :=
+  .trans _ (.node exP [.node exP [.leaf exP 1, .leaf exP 2], .leaf exP 0, .leaf exP 3]) _
+    (.perm _ _ _ (List.Perm.swap _ _ _))
+    (.move exP exP exP [.leaf exP 1, .leaf exP 2] [.leaf exP 0, .leaf exP 3])
+example : ∀ P ∈ exA.edgeMats, DetailedBalance 2 (fun _ => (1 : Nat)) P := by
+  intro P hP
+  have hP' : P = exP := by
+    simp only [exA, PTree.edgeMats, PTree.edgeMatsL, PTree.mat, List.mem_cons, List.mem_append, List.not_mem_nil, or_false, false_or, or_self] at hP
+    exact hP
+  subst hP'
+  intro i j _ _; simp only [exP, one_mul]; by_cases h : i = j <;> simp [h, eq_comm]
+example : lh 2 (fun _ => 1) (fun a s => if (a + s) % 2 = 0 then (1 : Nat) else 0) exA
+    = lh 2 (fun _ => 1) (fun a s => if (a + s) % 2 = 0 then (1 : Nat) else 0) exC := by decide
+/-- … and with non-uniform root weights (no detailed balance) the two root placements do differ -/
+example : lh 2 (fun s => s + 1) (fun a s => if a = 1 then (if s = 0 then (1 : Nat) else 0) else 1) exA
+    ≠ lh 2 (fun s => s + 1) (fun a s => if a = 1 then (if s = 0 then (1 : Nat) else 0) else 1) exC := by decide
+
+/-- **Root placed inside an edge.** For a reversible (`DetailedBalance` of the upper piece `P1`) and
+time-homogeneous (`x.mat = P1 · P2`) process, moving the root to a point *inside* the edge above the root's
+child `x` — the new root has two children: `x` below the lower piece `P2`, and the old root (with its other
+children `ds`) below the upper piece `P1` — leaves the column likelihood unchanged.  (`lh_edge_split` followed
+by `lh_reroot_across_edge`; this is "the root is moved anywhere on the tree" for a point that is not a node.) -/
+theorem lh_root_inside_edge {R α : Type} [CommSemiring R] (m : Nat) (π : Nat → R) (prof : α → Nat → R)
+    (P0 P0' P1 P2 : Mat R) (x : PTree R α) (ds : List (PTree R α)) (hx : x.mat = matMul m P1 P2)
+    (hdb : DetailedBalance m π P1) :
+    lh m π prof (.node P0 (x :: ds)) = lh m π prof (.node P0' [.node P1 ds, x.setMat P2]) := by
+  rw [lh_edge_split m π prof P0 (SplitL.head x (.node P1 [x.setMat P2]) ds (Split.here x P1 P2 hx)),
+    lh_reroot_across_edge m π prof P0 P0' P1 [x.setMat P2] ds hdb]
+
+/-- **A bifurcating root dissolved** (`TreeNode.unrooted()`): for a reversible process the root with the two
+children `a` and `node P cs` can be removed, `a` then hangs directly on the former sister node below the
+composed edge `P · a.mat` (time-homogeneity makes that `P(s + t)`).  (`perm`, `lh_reroot_across_edge`, then
+`lh_edge_split` read from right to left.) -/
+theorem lh_unroot_bifurcating {R α : Type} [CommSemiring R] (m : Nat) (π : Nat → R) (prof : α → Nat → R)
+    (P0 P0' P : Mat R) (a : PTree R α) (cs : List (PTree R α)) (hdb : DetailedBalance m π P) :
+    lh m π prof (.node P0 [a, .node P cs]) = lh m π prof (.node P0' (a.setMat (matMul m P a.mat) :: cs)) := by
+  have hperm : lh m π prof (.node P0 [a, .node P cs]) = lh m π prof (.node P0 [.node P cs, a]) := by
+    simp only [lh_eq, plh_node]
+    exact Finset.sum_congr rfl fun s _ => by rw [prodUp_perm m prof (List.Perm.swap _ _ _) s]
+  have hback : (a.setMat (matMul m P a.mat)).setMat a.mat = a := by cases a <;> rfl
+  rw [hperm, lh_reroot_across_edge m π prof P0 P0' P cs [a] hdb,
+    lh_edge_split m π prof P0' (SplitL.head (a.setMat (matMul m P a.mat)) _ cs
+      (Split.here (a.setMat (matMul m P a.mat)) P a.mat (by simp))), hback]
+
+example : lh 2 (fun _ => 1) (fun a s => if (a + s) % 2 = 0 then (1 : Nat) else 0)
+      (.node exP [.leaf exP 0, .node exP [.leaf exP 1, .leaf exP 2]])
+    = lh 2 (fun _ => 1) (fun a s => if (a + s) % 2 = 0 then (1 : Nat) else 0)
+      (.node exP [.leaf (matMul 2 exP exP) 0, .leaf exP 1, .leaf exP 2]) := by decide
+example : lh 2 (fun _ => 1) (fun a s => if (a + s) % 2 = 0 then (1 : Nat) else 0)
+      (.node exP [.leaf (matMul 2 exP exP) 0, .leaf exP 1])
+    = lh 2 (fun _ => 1) (fun a s => if (a + s) % 2 = 0 then (1 : Nat) else 0)
+      (.node exP [.node exP [.leaf exP 1], .leaf exP 0]) := by decide
+
 end CogentModel.C11
